@@ -63,6 +63,10 @@ let handle = function
       let rec zr k ws = if k = 0 then [] else (match ws with o :: t :: tl -> (name_of o, num t) :: zr (k - 1) tl | _ -> failwith "short zone") in
       let out = c12_sign_zone (name_of apex) (nat_of_int (int_of_string nkeys)) (zr (int_of_string n) rest) in
       if out = [] then "-" else String.concat " " (List.map (fun (o, t) -> hex_of_name o ^ ":" ^ string_of_int (int_of_n t)) out)
+  | "zu" :: apex :: nkeys :: n :: rest ->
+      let rec zr k ws = if k = 0 then [] else (match ws with o :: t :: u :: d :: tl -> ((name_of o, num t), (u = "1", bytes_of_hex d)) :: zr (k - 1) tl | _ -> failwith "short zone") in
+      let out = c12_sign_zone_unsorted (name_of apex) (nat_of_int (int_of_string nkeys)) (zr (int_of_string n) rest) in
+      if out = [] then "-" else String.concat " " (List.map (fun (o, t) -> hex_of_name o ^ ":" ^ string_of_int (int_of_n t)) out)
   | ["lc"; owner] -> string_of_int (int_of_n (c12_label_count (name_of owner)))
   | ["wce"; labels; owner] ->
       (match c12_wce (num labels) (name_of owner) with
